@@ -172,10 +172,20 @@ Definition lexnorm (comps : list str) : option path := lexnorm_aux [] comps.
 
 Definition parent (p : path) : path := removelast p.
 
+(* filepath.Rel(baseAbs, filepath.Join(filepath.Dir(link), target)) for link = base/rel and a
+   relative target: Clean works on the absolute path, so a target may climb above the base
+   and come back through the base's own name [pre] (the working directory's absolute path is
+   not known to the model: climbing above it counts as outside) *)
+Definition link_target_path (pre rel : path) (target : str) : option path :=
+  match lexnorm_aux (rev (pre ++ parent rel)) (split_slash target) with
+  | None => None
+  | Some full => strip_prefix pre full
+  end.
+
 (* ensureLinkPath(baseAbs, baseRel, link = base/rel, target) *)
-Definition link_ok (f : fs) (rel : path) (target : str) : res unit :=
+Definition link_ok (pre : path) (f : fs) (rel : path) (target : str) : res unit :=
   if is_abs target then Err XAbsLink
-  else match lexnorm (parent rel ++ split_slash target) with
+  else match link_target_path pre rel target with
        | None => Err XOutside
        | Some q => if check_dirs f [] q then Ok tt else Err XSymlinkDir
        end.
@@ -213,6 +223,21 @@ Fixpoint mkdir_all (umask m : N) (f : fs) (rp : path) : res fs :=
       end
   end.
 
+(* some path strictly below p is bound (nothing is ever unbound) *)
+Fixpoint is_proper_prefix (p q : path) : bool :=
+  match p, q with
+  | [], _ :: _ => true
+  | x :: p', y :: q' => str_eqb x y && is_proper_prefix p' q'
+  | _, _ => false
+  end.
+Definition has_children (f : fs) (p : path) : bool :=
+  existsb (fun qn => is_proper_prefix p (fst qn)) f.
+
+Definition is_root (p : path) : bool := match p with [] => true | _ :: _ => false end.
+
+(* directories are created owner-writable (mode | 0700) and get their recorded mode at io.EOF *)
+Definition owner_rwx : N := 448.
+
 Definition extract_entry (pre : path) (umask : N) (preserve : bool) (f : fs) (e : entry) : res fs :=
   match strip_prefix pre (e_name e) with
   | None => Err XOutside
@@ -236,21 +261,43 @@ Definition extract_entry (pre : path) (umask : N) (preserve : bool) (f : fs) (e 
                 Ok (if preserve then fs_set f1 rel (NFile c (chmod_mode (e_mode e))) else f1)
               else Err XNoParent
           end
-      | EDir =>
-          match mkdir_all umask (e_mode e) f (rev rel) with
-          | Ok f1 => Ok (if preserve then fs_set f1 rel (NDir (chmod_mode (e_mode e))) else f1)
-          | Err x => Err x
-          end
+      | EDir => mkdir_all umask (N.lor (e_mode e) owner_rwx) f (rev rel)
       | ELnk tg =>
-          match link_ok f rel tg with
+          if is_root rel then Err XExists    (* "a link cannot replace the base directory" *)
+          else
+          match link_ok pre f rel tg with
           | Err x => Err x
           | Ok _ =>
               match fs_lookup f rel with
               | None => if parent_is_dir f rel then Ok (fs_set f rel (NLink tg)) else Err XNoParent
-              | Some (NDir _) => Err XExists     (* os.Remove of a directory: only if empty; not modelled *)
+              | Some (NDir _) =>     (* os.Remove succeeds on an empty directory only *)
+                  if has_children f rel then Err XExists else Ok (fs_set f rel (NLink tg))
               | Some _ => Ok (fs_set f rel (NLink tg))
               end
           end
+      end
+  end.
+
+(* the code before the delayed directory modes: a directory got its recorded mode when its
+   entry was processed (kept for the refuted witnesses only) *)
+Definition extract_entry_prefix (pre : path) (umask : N) (preserve : bool) (f : fs) (e : entry) : res fs :=
+  match e_kind e, strip_prefix pre (e_name e) with
+  | EDir, Some rel =>
+      if negb (check_dirs f [] rel) then Err XSymlinkDir else
+      match mkdir_all umask (e_mode e) f (rev rel) with
+      | Ok f1 => Ok (if preserve then fs_set f1 rel (NDir (N.land (e_mode e) file_create_bits)) else f1)
+      | Err x => Err x
+      end
+  | _, _ => extract_entry pre umask preserve f e
+  end.
+
+Fixpoint extract_list_prefix (pre : path) (umask : N) (preserve : bool) (f : fs) (es : list entry) : res fs :=
+  match es with
+  | [] => Ok f
+  | e :: es' =>
+      match extract_entry_prefix pre umask preserve f e with
+      | Ok f' => extract_list_prefix pre umask preserve f' es'
+      | Err x => Err x
       end
   end.
 
@@ -267,40 +314,40 @@ Fixpoint extract_list (pre : path) (umask : N) (preserve : bool) (f : fs) (es : 
 (* pushDir: ensureDir(target) = MkdirAll(target, 0777) then the extraction *)
 Definition fs_init (umask : N) : fs := [([], NDir (create_mode dir_create_bits umask 511))].
 
-(* extractTarDirectory before the root-mode fix: nothing after the last entry *)
+(* extractTarDirectory before the fixes of the directory modes: recorded modes applied at
+   once, nothing after the last entry *)
 Definition extract_prefix (pre : path) (umask : N) (preserve : bool) (es : list entry) : res fs :=
-  extract_list pre umask preserve (fs_init umask) es.
+  extract_list_prefix pre umask preserve (fs_init umask) es.
 
-(* the mode the archive records for the base directory itself: the last directory entry
-   whose name is the prefix (baseMode) *)
-Fixpoint base_mode (pre : path) (acc : option N) (es : list entry) : option N :=
-  match es with
-  | [] => acc
-  | e :: es' =>
-      match e_kind e, strip_prefix pre (e_name e) with
-      | EDir, Some [] => base_mode pre (Some (e_mode e)) es'
-      | _, _ => base_mode pre acc es'
-      end
-  end.
-
-(* narrowDirMode: permission bits outside the recorded mode are removed, sticky is taken from
-   the recorded mode, setuid/setgid/sticky already on the directory stay *)
+(* restoreDirModes, not exact: permission bits outside the recorded mode are removed from what
+   the creation left, setuid/setgid/sticky are those already there or recorded *)
 Definition narrow_mode (cur m : N) : N :=
   N.lor (N.land (N.land cur perm_bits) (N.land m perm_bits))
-        (N.lor (N.land cur 3584) (N.land m 512)).
+        (N.lor (N.land cur 3584) (N.land m 3584)).
 
-(* at io.EOF: without PreservePermissions the pre-created base directory is narrowed to the
-   mode recorded for it *)
-Definition finish_base (pre : path) (preserve : bool) (es : list entry) (f : fs) : fs :=
-  if preserve then f
-  else match base_mode pre None es, fs_lookup f [] with
-       | Some m, Some (NDir cur) => fs_set f [] (NDir (narrow_mode cur m))
-       | _, _ => f
-       end.
+Definition final_dir_mode (preserve : bool) (cur m : N) : N :=
+  if preserve then chmod_mode m else narrow_mode cur m.
+
+(* restoreDirModes at io.EOF: every directory entry whose path still is a directory gets its
+   final mode, computed from what the extraction left ([f0]); the last entry of a path counts
+   (later bindings shadow earlier ones).  The deepest-first order matters to the kernel's
+   permission checks only, not to the result. *)
+Definition finish_step (pre : path) (preserve : bool) (f0 acc : fs) (e : entry) : fs :=
+  match e_kind e, strip_prefix pre (e_name e) with
+  | EDir, Some rel =>
+      match fs_lookup f0 rel with
+      | Some (NDir cur) => fs_set acc rel (NDir (final_dir_mode preserve cur (e_mode e)))
+      | _ => acc
+      end
+  | _, _ => acc
+  end.
+
+Definition finish_dirs (pre : path) (preserve : bool) (es : list entry) (f : fs) : fs :=
+  fold_left (finish_step pre preserve f) es f.
 
 Definition extract (pre : path) (umask : N) (preserve : bool) (es : list entry) : res fs :=
-  match extract_prefix pre umask preserve es with
-  | Ok f => Ok (finish_base pre preserve es f)
+  match extract_list pre umask preserve (fs_init umask) es with
+  | Ok f => Ok (finish_dirs pre preserve es f)
   | Err x => Err x
   end.
 
@@ -337,6 +384,24 @@ Definition expected (umask : N) (preserve : bool) (t : tree) (p : path) : option
   | Some (Dir m _ _) => Some (NDir (restored_mode umask preserve m))
   end.
 
+(* between the last entry and restoreDirModes: directories still have their creation mode,
+   the base directory the one pushDir gave it *)
+Definition mid_dir_mode (umask m : N) : N := create_mode dir_create_bits umask (N.lor m owner_rwx).
+
+Definition expected_mid (umask : N) (preserve : bool) (t : tree) (p : path) : option node :=
+  match tree_get t p with
+  | None => None
+  | Some (File c m _) => Some (NFile c (restored_mode umask preserve m))
+  | Some (Link tg _) => Some (NLink tg)
+  | Some (Dir m _ _) => Some (NDir (mid_dir_mode umask m))
+  end.
+
+Definition expected_mid_top (umask : N) (preserve : bool) (t : tree) (p : path) : option node :=
+  match p, t with
+  | [], Dir _ _ _ => Some (NDir (N.ldiff 511 umask))
+  | _, _ => expected_mid umask preserve t p
+  end.
+
 (* ... and as the code before the root-mode fix restored it ([extract_prefix]): the base
    directory is pre-created by ensureDir with 0777, its recorded mode only arrived with
    PreservePermissions *)
@@ -369,7 +434,7 @@ Fixpoint modes_okb (t : tree) : bool :=
   | File _ m _ => m <=? 4095          (* permission bits, setuid, setgid, sticky *)
   | Link _ _ => true
   | Dir m _ ch =>
-      (m <=? 1023) &&                 (* permission bits and sticky: mkdir(2) drops setuid/setgid *) forallb (fun nc => modes_okb (snd nc)) ch
+      (m <=? 4095) && forallb (fun nc => modes_okb (snd nc)) ch
   end.
 
 (* all paths at which the tree has a symlink *)
@@ -407,21 +472,22 @@ Fixpoint prefixes_clear (islink isfile : path -> bool) (acc rest : path) : bool 
 
 (* relative links that stay inside the tree and do not pass through other links or through
    regular files ([islink]/[isfile] say where the whole tree has links and files) *)
-Fixpoint benignb (islink isfile : path -> bool) (rel : path) (t : tree) : bool :=
+Fixpoint benignb (pre : path) (islink isfile : path -> bool) (rel : path) (t : tree) : bool :=
   match t with
   | File _ _ _ => isfile rel
   | Link tg _ =>
       islink rel && negb (is_abs tg) &&
-      match lexnorm (parent rel ++ split_slash tg) with
+      negb (match rel with [] => true | _ :: _ => false end) &&
+      match link_target_path pre rel tg with
       | None => false
       | Some q => prefixes_clear islink isfile [] q
       end
-  | Dir _ _ ch => forallb (fun nc => benignb islink isfile (rel ++ [fst nc]) (snd nc)) ch
+  | Dir _ _ ch => forallb (fun nc => benignb pre islink isfile (rel ++ [fst nc]) (snd nc)) ch
   end.
 
 Definition links_of (t : tree) (p : path) : bool := existsb (path_eqb p) (link_paths [] t).
 Definition files_of (t : tree) (p : path) : bool := existsb (path_eqb p) (file_paths [] t).
-Definition benign_tree (t : tree) : bool := benignb (links_of t) (files_of t) [] t.
+Definition benign_tree (pre : path) (t : tree) : bool := benignb pre (links_of t) (files_of t) [] t.
 Definition is_dir (t : tree) : bool := match t with Dir _ _ _ => true | _ => false end.
 
 (* ---------- descriptors and unpacking; the byte codecs are parameters ---------- *)
